@@ -3,6 +3,14 @@
 import json, subprocess
 ids=[json.loads(l)['id'] for l in open('/verif/properties.jsonl')]
 CHECKS = {
+ "C01": dict(level="exploration", engine="E1", design="3 C01",
+   technique="bounded-exhaustive enumeration of value x position x writer alphabets; oracle = pre-save content dump equals post-reload dump",
+   text="Every workbook of 1-3 cells over the stated value alphabet (texts of <=2/3 atoms from a 19-atom XML/whitespace/Unicode alphabet, threshold floats and the m*10^e grid, booleans, errors, rich runs, formulas x cached results of every kind) at 9 grid positions is saved by both writers and reloaded; all ordered pairs of a 70-value core cover interning and typing interactions.",
+   note="Trusted: the library's public getters used by the dump. Texts beyond 3 atoms / f64 outside the grid are outside the bound (small-scope argument in DESIGN 2.1)."),
+ "C02": dict(level="exploration", engine="E1+P", design="3 C02",
+   technique="bounded-exhaustive enumeration of feature-subset lattice, escape-channel product and re-saved corpus; oracle = independent Python OPC/SpreadsheetML validator + decoder",
+   text="Every package of the feature lattice (2^11 subsets thorough, size<=2 and co-size<=1 quick) x writers x macro, every escape channel x special string, and every re-saved corpus file is validated and decoded by an independent stdlib-only Python reader and compared with the in-memory model.",
+   note="Trusted: pyref/xlsx_ref.py (zipfile + expat) as the independent reader; it implements the subset of ECMA-376 named in DESIGN 2.5."),
  "C17": dict(level="exploration", engine="E1", design="3 C17",
    technique="bounded-exhaustive enumeration (complete finite domain) with independent reference codec",
    text="Complete enumeration of the finite codec domains (all columns, all 1-3 letter names, every row x boundary columns x lock patterns, all range shapes over boundary corners, all legal sheet names of <=3 atoms) against an independent base-26/quoting reference; the domain is finite, so exhaustion settles the property inside the stated sheet-name bound.",
